@@ -23,6 +23,21 @@ def cases(seed, tier):
                         clustering=True, cluster_every=(1, 2, 3, 5, 7), n_max_clusters=(None, None, 1, 2, 3), vv=False, d=r.choice([1, 2, 2, 3]))
         c["cfg"]["n_particles"] = r.choice([16, 24, 32, 64, 96, 128])
         c["cfg"]["ess_ratio"] = r.choice([1.0, 2.0, 4.0])
+        if r.random() < 0.4:
+            # "vanishing cluster" family: a broad minor mode that carries weight at low beta and dies out later, with a clustering
+            # cadence > 1, so that a clusterer fitted earlier is re-used on a pool in which one of its clusters has no training point
+            d = r.choice([2, 3, 3])
+            w1 = r.choice([0.02, 0.02, 0.05])
+            s1, s2 = r.choice([0.02, 0.05]), r.choice([0.1, 0.2])
+            c["target"] = dict(d=d, lo=[-1.0] * d, hi=[1.0] * d, kind="bimodal", comps=[dict(w=w1, factors=[["gauss", -0.5, s2]] + [["gauss", 0.0, s2]] * (d - 1)),
+                                                                                       dict(w=1 - w1, factors=[["gauss", 0.4, s1]] + [["gauss", 0.1, s1]] * (d - 1))])
+            c["cfg"].update(n_particles=r.choice([64, 128, 128]), cluster_every=r.choice([2, 3, 5, 7, 10]), split_threshold=0.5, n_max_clusters=r.choice([None, None, 3]))
+            c["cfg"].pop("n_steps", None)
+            c["cfg"].pop("n_max_steps", None)
+            c["n_total"] = r.choice([128, 256])
+            c["eval"] = "vector"
+            c.pop("pool", None)
+            c["family"] = "vanishing"
         out.append(c)
     return out
 
